@@ -1135,8 +1135,8 @@ func sMove(n *Nodis, conn *redis.Conn, cmd redis.Command) {
 
 // SSCAN key cursor [MATCH pattern] [COUNT count]
 func sScan(n *Nodis, conn *redis.Conn, cmd redis.Command) {
-	if len(cmd.Args) < 1 {
-		conn.WriteError("SSCAN requires at least one argument")
+	if len(cmd.Args) < 2 {
+		conn.WriteError("SSCAN requires at least two arguments")
 		return
 	}
 	key := cmd.Args[0]
@@ -1629,8 +1629,8 @@ func hStrLen(n *Nodis, conn *redis.Conn, cmd redis.Command) {
 }
 
 func hScan(n *Nodis, conn *redis.Conn, cmd redis.Command) {
-	if len(cmd.Args) == 0 {
-		conn.WriteError("HSCAN requires at least one argument")
+	if len(cmd.Args) < 2 {
+		conn.WriteError("HSCAN requires at least two arguments")
 		return
 	}
 	var err error
@@ -1841,8 +1841,8 @@ func rPushx(n *Nodis, conn *redis.Conn, cmd redis.Command) {
 }
 
 func lRem(n *Nodis, conn *redis.Conn, cmd redis.Command) {
-	if len(cmd.Args) < 2 {
-		conn.WriteError("LREM requires at least two arguments")
+	if len(cmd.Args) < 3 {
+		conn.WriteError("LREM requires at least three arguments")
 		return
 	}
 	var err error
@@ -1859,8 +1859,8 @@ func lRem(n *Nodis, conn *redis.Conn, cmd redis.Command) {
 }
 
 func lTrim(n *Nodis, conn *redis.Conn, cmd redis.Command) {
-	if len(cmd.Args) < 2 {
-		conn.WriteError("LTRIM requires at least two arguments")
+	if len(cmd.Args) < 3 {
+		conn.WriteError("LTRIM requires at least three arguments")
 		return
 	}
 	key := cmd.Args[0]
@@ -1903,8 +1903,8 @@ func lSet(n *Nodis, conn *redis.Conn, cmd redis.Command) {
 }
 
 func lRange(n *Nodis, conn *redis.Conn, cmd redis.Command) {
-	if len(cmd.Args) < 2 {
-		conn.WriteError("LRANGE requires at least two arguments")
+	if len(cmd.Args) < 3 {
+		conn.WriteError("LRANGE requires at least three arguments")
 		return
 	}
 	key := cmd.Args[0]
@@ -2106,7 +2106,7 @@ func zRank(n *Nodis, conn *redis.Conn, cmd redis.Command) {
 }
 
 func zRevRank(n *Nodis, conn *redis.Conn, cmd redis.Command) {
-	if len(cmd.Args) == 0 {
+	if len(cmd.Args) < 2 {
 		conn.WriteError("ZREVRANK requires at least two argument")
 		return
 	}
